@@ -223,8 +223,8 @@ structure Safe (env : Env) (fuel : Nat) : Prop where
   join : ∀ kvs name state data ctx r res st, Inv kvs → defined kvs name = true → leaveOk kvs state = true →
     catchOk kvs state = true → illJoin env fuel (.obj kvs) name state data ctx r res st = false
   branches : ∀ bs params ctx st d, (∀ b ∈ bs, wfBranch d b = true) → illBranches env fuel bs params ctx st = false
-  items : ∀ proc sel input items i ctx st d, wfBranch d proc = true →
-    illItems env fuel proc sel input items i ctx st = false
+  items : ∀ proc sel input items i mc be ctx st d, wfBranch d proc = true →
+    illItems env fuel proc sel input items i mc be ctx st = false
 
 theorem safe_zero (env : Env) : Safe env 0 :=
   ⟨by intros; simp [illFrom], by intros; simp [illLeave], by intros; simp [illErr], by intros; simp [illState],
@@ -299,9 +299,9 @@ theorem safe_branches (env : Env) (fuel : Nat) (ih : Safe env fuel) :
     exact ⟨ih.from_ _ _ _ _ _ _ ⟨d, hw⟩ hdef, ih.branches _ _ _ _ d (fun b' hb' => hb b' (by simp [hb']))⟩
 
 theorem safe_items (env : Env) (fuel : Nat) (ih : Safe env fuel) :
-    ∀ proc sel input items i ctx st d, wfBranch d proc = true →
-      illItems env (fuel + 1) proc sel input items i ctx st = false := by
-  intro proc sel input items i ctx st d hp
+    ∀ proc sel input items i mc be ctx st d, wfBranch d proc = true →
+      illItems env (fuel + 1) proc sel input items i mc be ctx st = false := by
+  intro proc sel input items i mc be ctx st d hp
   cases items with
   | nil => simp [illItems]
   | cons item rest =>
@@ -310,7 +310,7 @@ theorem safe_items (env : Env) (fuel : Nat) (ih : Safe env fuel) :
     split
     · rfl
     · simp only [Bool.or_eq_false_iff]
-      exact ⟨ih.from_ _ _ _ _ _ _ ⟨d, hw⟩ hdef, ih.items _ _ _ _ _ _ _ d hp⟩
+      exact ⟨ih.from_ _ _ _ _ _ _ ⟨d, hw⟩ hdef, ih.items _ _ _ _ _ _ _ _ _ d hp⟩
 
 
 theorem S_ne (a b : String) (hab : a ≠ b) : (S a = S b) = False := by
@@ -402,7 +402,7 @@ theorem safe_state (env : Env) (hch : ChooseOK env) (fuel : Nat) (ih : Safe env 
     · split
       · exact hE _ _ _
       · simp only [Bool.or_eq_false_iff]
-        exact ⟨ih.items _ _ _ _ _ _ _ d hp, ih.join _ _ _ _ _ _ _ _ hI hd hl hc⟩
+        exact ⟨ih.items _ _ _ _ _ _ _ _ _ d hp, ih.join _ _ _ _ _ _ _ _ hI hd hl hc⟩
   · exfalso
     have := F.known
     simp [knownTypes, h1, h2, h3, h4, h5, h6, h7, h8] at this
